@@ -932,6 +932,10 @@ func (c *Ctx) FpUn(op Op, a *Term) *Term {
 	}
 	if c.FloatUF {
 		w := a.S.W
+		// sign operations commute with (exact) precision conversions
+		if (op == OFpNeg || op == OFpAbs) && a.Op == OUF && strings.HasPrefix(a.Name, "fp_cvt_") && len(a.Args) == 1 {
+			return c.FpToFp(c.FpUn(op, a.Args[0]), a.S)
+		}
 		switch op {
 		case OFpNeg:
 			return c.BvXor(a, c.BVC(uint64(1)<<uint(w-1), w))
@@ -1053,6 +1057,10 @@ func (c *Ctx) FpToFp(a *Term, s Sort) *Term {
 		return c.fconst(s, a.FloatVal())
 	}
 	if c.FloatUF {
+		// widening followed by narrowing back is the identity
+		if a.Op == OUF && strings.HasPrefix(a.Name, "fp_cvt_") && len(a.Args) == 1 && a.Args[0].S == s && a.S.W > s.W {
+			return a.Args[0]
+		}
 		return c.fuf(OFpToFp, s, 0, a)
 	}
 	return c.mk(&Term{Op: OFpToFp, S: s, Args: []*Term{a}})
